@@ -463,7 +463,14 @@ def _judge_rest(prog, serial, run, has_reader, prog_buffered):
                     # ("returns a value the collection actually had"); an operation that fails, or
                     # a mutator's wrong result, also concerns C13 ("completes without errors")
                     props = ("C14",) if (op[1] not in MUTATORS and got[0] == "ok") else ("C13", "C14")
-                    v.append((props, "result:" + op[1], "T%d op %s returned %s; serially it returns one of %s" % (t, op, got, sorted(allowed))))
+                    # the same kind names as for unbuffered programs, so that one mechanism (e.g. the
+                    # multi-load Sequence mix-ins) has one signature
+                    kind = "read-error" if got[0] == "err" else "impossible-value"
+                    if op[1] in MUTATORS:
+                        kind = "writer-" + kind
+                    if got[0] == "err":
+                        kind = kind + "=" + str(got[1])
+                    v.append((props, kind + ":" + op[1], "T%d op %s returned %s; serially it returns one of %s" % (t, op, got, sorted(allowed))))
         return v
     if run["finals"] not in fins:
         v.append((("C14",) + (("C13",) if prog.buffered else ()), "lost-update", "final content %s is not the result of the writers in any serial order (a writer's update was lost or invented)" % run["finals"]))
@@ -518,6 +525,10 @@ def c14_signature(prog, run, viol_kind):
     if viol_kind != "lost-update":
         # per-operation kinds carry the operation name: the cause is specific to the operation
         base, _, opname = viol_kind.partition(":")
+        if opname in ("lcount", "lcontains", "lindex"):
+            # the Sequence mix-ins are loops of separately loading reads: one call sees several
+            # versions of the file - whatever the symptom (wrong count, error from a vanished item)
+            return "C14:" + where + "multi-load-read:" + opname
         return "C14:" + where + base + ":" + opname
     return "C14:" + where + _lost_update_mechanism(prog, run)
 
